@@ -1,6 +1,8 @@
 import AlgoVerif.Proofs.C04Binary
 import AlgoVerif.Proofs.C04Binomial
 import AlgoVerif.Proofs.C04Fib
+import AlgoVerif.Proofs.C04MaxDegree
+import AlgoVerif.Proofs.C04BinomialShape
 /-!
 # C04 — heaps are priority queues (property theorems; helper lemmas in `Proofs/C04*.lean`)
 
@@ -94,3 +96,41 @@ theorem C04_fibonacci_degree_in_range (n d : Nat) (h : 2 ^ d ≤ n) : maxDegree 
 
 /-- non-vacuity: 13 nodes can hold a tree of degree 3 (8 nodes); `maxDegree 13 = 6`. -/
 example : maxDegree (13 : Int) = .ok 6 ∧ 3 < floorLogPhi 13 + 1 := by decide
+
+/-- The integer `maxDegree` of the Model is exactly `⌊log_φ n⌋ + 1`: `floorLogPhi n` is the largest `k` with
+`φ^k ≤ n`, where `φ^k ≤ n` is written over the integers through Binet's closed form
+`φ^k = (L_k + F_k·√5)/2` as `PhiLe k n : L_k ≤ 2n ∧ 5·F_k² ≤ (2n − L_k)²`.  (What remains outside Lean is the
+closed form itself and the agreement of Go's `float64` computation with this exact value, which the harness
+checks for every `n` of a range on each run.) -/
+theorem C04_fibonacci_maxDegree_exact (n : Nat) (hn : 1 ≤ n) :
+    maxDegree (n : Int) = .ok (floorLogPhi n + 1) ∧
+    (∀ k, k ≤ floorLogPhi n → PhiLe k n) ∧ (∀ k, floorLogPhi n < k → ¬ PhiLe k n) := by
+  refine ⟨?_, floorLogPhi_spec n hn⟩
+  unfold maxDegree
+  rw [if_neg (by omega)]
+  simp
+
+/-- non-vacuity: `φ^3 ≈ 4.24 ≤ 5 < φ^4 ≈ 6.85`, and `floorLogPhi 5 = 3`. -/
+example : floorLogPhi 5 = 3 ∧ PhiLe 3 5 ∧ ¬ PhiLe 4 5 := by
+  refine ⟨by decide, ?_, ?_⟩ <;> (unfold PhiLe; decide)
+
+/-- Structural property of the binomial heap (what the Go `verify()` checks besides heap order; not needed for
+the priority-queue property): after every history over a family of heaps, in every heap the root list is
+strictly increasing in order and every tree is a binomial tree (a node of order `k` has children of orders
+`k-1, …, 0`). -/
+theorem C04_binomial_shape {K V : Type} (cmp : K → K → Int) (hc : LawfulCmp cmp) (eqV : V → V → Bool)
+    (ops : List (MOp K V)) (regs : Nat → Binomial K V)
+    (hrun : (binomialImpl cmp eqV).stateAfter (fun _ => Binomial.new) ops = .ok regs) (r : Nat) :
+    (regs r).head.Pairwise (fun a b => a.deg < b.deg) ∧ ∀ t ∈ (regs r).head, Tree.Binom t :=
+  have h := binomial_shape hc eqV ops (fun _ => Binomial.new) regs (fun _ => BShape_new) hrun r
+  ⟨h.sorted, h.binom⟩
+
+/-- non-vacuity: the hypothesis holds for a history that builds the forest `[order 0, order 2]` out of 5 items. -/
+example : (match (binomialImpl cmpAsc (fun a b : Int => a == b)).stateAfter (fun _ => Binomial.new)
+      [.on 0 (.insert 3 1), .on 0 (.insert 1 2), .on 1 (.insert 1 3), .on 1 (.insert 2 4), .merge 0 1,
+       .on 0 (.insert 7 5)] with
+    | .ok regs => some ((regs 0).head.map (·.deg))
+    | _ => none) = some [0, 2] := by
+  simp [Impl.stateAfter, Impl.mstep, binomialImpl, Binomial.step, update, Binomial.insert, Binomial.union,
+    Binomial.merge, Binomial.consolidate, Binomial.consLoop, Binomial.new, Tree.leaf, Tree.deg,
+    Binomial.sibSameOrder, Tree.link, cmpAsc, Tree.key, Binomial.mergeWith]
